@@ -305,7 +305,7 @@ func handleMethod(svr interface{}, serviceName string, desc *grpc.MethodDesc, un
 				st = status.FromProto(stpb)
 			}
 			statProto := st.Proto()
-			w.Header().Set("X-GRPC-Status", fmt.Sprintf("%d:%s", statProto.Code, statProto.Message))
+			w.Header().Set("X-GRPC-Status", fmt.Sprintf("%d:%s", statProto.Code, headerValue(statProto.Message)))
 			for _, d := range statProto.Details {
 				b, err := codec.Marshal(d)
 				if err != nil {
@@ -414,6 +414,19 @@ func handleStream(svr interface{}, serviceName string, desc *grpc.StreamDesc, st
 
 		writeProtoMessage(w, codec, &tr, true)
 	}
+}
+
+// headerValue makes s safe to send as an HTTP header value. Control
+// characters, which would make the reply malformed (clients refuse to parse
+// it), become blanks, as net/http itself already does with CR and LF.
+func headerValue(s string) string {
+	b := []byte(s)
+	for i, c := range b {
+		if (c < 0x20 && c != '\t') || c == 0x7f {
+			b[i] = ' '
+		}
+	}
+	return string(b)
 }
 
 func peerFromRequest(r *http.Request) *peer.Peer {
